@@ -38,6 +38,11 @@ RULE = (
     '/ renaming / fix / sensitivities; controller family; signature = '
     '(object, op sequence); non-trivial = >=1 reconfiguration step')
 ASSUMPTIONS = [
+    'ReducedPopulationModel.set_parameter_names refuses names over 50 '
+    'characters (pinned by the repository\'s tests); composites under long '
+    'dimension names publish coefficient names beyond that limit, so a '
+    'set_parameter_names that has to pass them down to a nested reduced '
+    'wrapper is refused: counted as a rejected input, not as a violation',
     'reconfiguration goes through the public API of the top-level object '
     '(sub-models held by a composite are not reconfigured behind its back)',
     'a vector of the reported length must evaluate without raising; longer '
@@ -477,6 +482,15 @@ def _pop_history(ctx, rng, leaves, n_ids, reduced, ops, tag, nest=None):
         try:
             d = pop_op(rng, st, op)
         except Exception as e:      # noqa
+            if 'cannot exceed 50 characters' in str(e) and any(
+                    'set_dim_names(custom)' == o_ for o_ in st.ops) and \
+                    op.startswith('set_parameter_names'):
+                # the documented 50-character limit of ReducedPopulationModel
+                # names: composites with long dimension names carry
+                # coefficient names beyond it, which a wrapper below refuses
+                # when the names are passed down (see ASSUMPTIONS)
+                ctx.reject('names over the 50-character limit')
+                return
             ctx.violation_exc('reconfiguration_raises', e,
                               {'ops': st.ops + [op], 'leaves': codes}, feats)
             return
